@@ -82,7 +82,17 @@ void vk_reap(int p) {
   for (int i = 0; i < VK_NMAP; i++) if (vk_map_proc[i] == p) vk_map_pages[i] = 0;
 }
 
-void vk_kill(int p) { if (!vk_dead[p]) { vk_dead[p] = 1; vk_reap(p); } }
+#ifdef VK_SYSV
+static void vk_sysv_undo(int p);
+#endif
+void vk_kill(int p) {
+  if (!vk_dead[p]) {
+    vk_dead[p] = 1; vk_reap(p);
+#ifdef VK_SYSV
+    vk_sysv_undo(p);      /* SEM_UNDO adjustments are applied when the process dies */
+#endif
+  }
+}
 
 /* common entry of every system call; returns 1 when the caller is dead (call is a no-op) */
 static int vk_enter(void) {
@@ -308,6 +318,143 @@ int vm_close(int fd) {
   vk_fd_open[f] = 0;
   return 0;
 }
+
+
+/* ================= System V flavour (psemaphore-sysv.c): semget / semctl / semop, ftok, the key FILE =================
+ * Same name table and semaphore objects as above; a System V set has no per-process handle: the id stays valid for
+ * everybody until IPC_RMID, after which every call on it fails (EINVAL / EIDRM) and the key is free again.
+ * ftok is an injective function of the key file's PATH (the inode is not modelled).  SEM_UNDO is modelled: the kernel
+ * keeps a per-process adjustment per set and applies it when the process dies (vk_kill); SETVAL clears the adjustments.
+ * New sets start with value 0; SETVAL accepts 0..SEMVMX (32767), otherwise ERANGE. */
+#ifdef VK_SYSV
+#include <sys/ipc.h>
+#include <sys/sem.h>
+#define VK_KEY_BASE 0x5000
+#define VK_SEMID_BASE 1000
+#define VK_SEMVMX 32767
+static int vk_semrm[VK_NSEM];            /* set removed by IPC_RMID */
+static int vk_semadj[2][VK_NSEM];        /* SEM_UNDO adjustments per process */
+static int vk_file[VK_NSLOT];            /* key file exists */
+int vk_files(void) { int n = 0; for (int s = 0; s < VK_NSLOT; s++) if (vk_file[s]) n++; return n; }
+
+static void vk_sysv_undo(int p) {
+  for (int o = 0; o < VK_NSEM; o++) {
+    if (o < vk_nsem && !vk_semrm[o] && vk_semadj[p][o] != 0) {
+      int v = vk_semval[o] + vk_semadj[p][o];
+      vk_semval[o] = v < 0 ? 0 : v;
+    }
+    vk_semadj[p][o] = 0;
+  }
+}
+
+int vm_open_x(const char *path, int flags, ...) {
+  if (vk_enter()) return -1;
+  if (vk_fault()) return -1;
+  int slot = vk_slot(path);
+  if (flags & O_CREAT) {
+    if (vk_file[slot]) { if (flags & O_EXCL) { errno = EEXIST; return -1; } }
+    else vk_file[slot] = 1;
+  } else if (!vk_file[slot]) { errno = ENOENT; return -1; }
+  VASSERT(vk_nfd < VK_NFD, "kernel model bound: descriptors");
+  VASSUME(vk_nfd < VK_NFD);
+  int f = vk_nfd++;
+  vk_fd_obj[f] = -1; vk_fd_proc[f] = vk_cur; vk_fd_open[f] = 1;
+  return f + VK_FD_BASE;
+}
+
+int vm_stat(const char *path, struct stat *st) {
+  if (vk_enter()) return -1;
+  int slot = vk_slot(path);
+  if (!vk_file[slot]) { errno = ENOENT; return -1; }
+  st->st_size = 0;
+  return 0;
+}
+
+int vm_unlink(const char *path) {
+  if (vk_enter()) return -1;
+  int slot = vk_slot(path);
+  if (!vk_file[slot]) { errno = ENOENT; return -1; }
+  vk_file[slot] = 0;
+  return 0;
+}
+
+key_t vm_ftok(const char *path, int proj) {
+  (void) proj;
+  if (vk_enter()) return (key_t) -1;
+  int slot = vk_slot(path);
+  if (!vk_file[slot]) { errno = ENOENT; return (key_t) -1; }
+  return (key_t) (VK_KEY_BASE + slot);
+}
+
+int vm_semget(key_t key, int nsems, int flg) {
+  if (vk_enter()) return -1;
+  if (vk_fault()) return -1;
+  int slot = (int) key - VK_KEY_BASE;
+  VASSERT(slot >= 0 && slot < VK_NSLOT && nsems == 1, "kernel model: semget with a key produced by ftok, one semaphore per set");
+  VASSUME(slot >= 0 && slot < VK_NSLOT);
+  int obj = vk_semname[slot] - 1;
+  if (obj >= 0) {
+    if ((flg & IPC_CREAT) && (flg & IPC_EXCL)) { errno = EEXIST; return -1; }
+    return VK_SEMID_BASE + obj;
+  }
+  if (!(flg & IPC_CREAT)) { errno = ENOENT; return -1; }
+  VASSERT(vk_nsem < VK_NSEM, "kernel model bound: semaphore objects");
+  VASSUME(vk_nsem < VK_NSEM);
+  obj = vk_nsem++;
+  vk_semval[obj] = 0;
+  vk_semname[slot] = obj + 1;
+  return VK_SEMID_BASE + obj;
+}
+
+/* live set behind an id, -1 (errno set) when the id is not / no longer valid */
+static int vk_semid_obj(int id) {
+  int obj = id - VK_SEMID_BASE;
+  if (obj < 0 || obj >= VK_NSEM || obj >= vk_nsem || vk_semrm[obj]) { errno = ND_BOOL() ? EINVAL : EIDRM; return -1; }
+  return obj;
+}
+
+int vm_semctl4(int id, int n, int cmd, int val) {
+  if (vk_enter()) return -1;
+  int obj = vk_semid_obj(id);
+  if (obj < 0) return -1;
+  if (n != 0) { errno = EINVAL; return -1; }
+  if (cmd == SETVAL) {
+    if (vk_fault()) return -1;
+    if (val < 0 || val > VK_SEMVMX) { errno = ERANGE; return -1; }
+    vk_semval[obj] = val;
+    vk_semadj[0][obj] = 0; vk_semadj[1][obj] = 0;
+    return 0;
+  }
+  if (cmd == GETVAL) return vk_semval[obj];
+  if (cmd == IPC_RMID) {
+    vk_semrm[obj] = 1;
+    for (int s = 0; s < VK_NSLOT; s++) if (vk_semname[s] == obj + 1) vk_semname[s] = 0;
+    return 0;
+  }
+  VASSERT(0, "kernel model: semctl command outside SETVAL / GETVAL / IPC_RMID");
+  errno = EINVAL;
+  return -1;
+}
+
+int vm_semop(int id, struct sembuf *ops, size_t nops) {
+  if (vk_enter()) return -1;
+  VASSERT(nops == 1 && ops[0].sem_num == 0 && (ops[0].sem_op == 1 || ops[0].sem_op == -1), "kernel model: one +1 / -1 operation on semaphore 0");
+  if (ops[0].sem_op < 0 && vk_eintr()) return -1;
+  int obj = vk_semid_obj(id);
+  if (obj < 0) return -1;
+  int undo = (ops[0].sem_flg & SEM_UNDO) != 0;
+  if (ops[0].sem_op > 0) {
+    if (vk_semval[obj] >= VK_SEMVMX) { errno = ERANGE; return -1; }
+    vk_semval[obj]++;
+    if (undo) vk_semadj[vk_cur][obj]--;
+    return 0;
+  }
+  if (vk_semval[obj] > 0) { vk_semval[obj]--; if (undo) vk_semadj[vk_cur][obj]++; return 0; }
+  VASSERT(!vk_expect_noblock, "acquire does not block while units are available");
+  VASSUME(0);
+  return -1;
+}
+#endif /* VK_SYSV */
 
 /* ---- direct construction of a leftover kernel state (objects without any open handle, as left by dead processes) ---- */
 int vk_setup_sem(int slot, int value) {
